@@ -7,6 +7,7 @@
   All statements hold for every document, every array length, every integer — no bounds.
 -/
 import JP.Lemmas.Query
+import JP.Lemmas.LexStr
 namespace JP.Props.C01
 open JP JP.Query JP.Lemmas
 
@@ -52,7 +53,33 @@ theorem index_on_object (env : Env) (n : Node) (kvs : List (Str × J)) (i : Int)
       (evalSel env n (.index i)).map (·.val) = [v] ∧ (evalSel env n (.name (intStr i))).map (·.val) = [v]) := by
   exact Lemmas.index_on_object env n kvs i h
 
+/-! ## Spellings (character level)
+
+The RFC lets a member name be written in either quote style with any mix of literal characters and
+escapes. `Lex.Spells q s w` is that grammar (RFC 9535 section 2.3.1.1: `unescaped`, the other quote,
+`ESC quote`, `ESC escapable`, `\uXXXX` in any case, surrogate pairs). -/
+
+/-- **Translated**: the lexer's rule texts are the ones the character-level model was written for. -/
+theorem lex_source_ok :
+    Lex.sourceOK Generated.lexerRules Generated.lexerPatterns Generated.lexerInitPatterns = true := by decide
+
+/-- **Any RFC spelling of a string literal is read as that string**: the lexer's quoted-string rule takes
+    exactly the text between the quotes, and the parser's decoding of it is the string spelled. -/
+theorem string_spelling (q : Char) (hq : q = '\'' ∨ q = '"') (k : Lex.Kind) (s w rest : Str) (h : Lex.Spells q s w) :
+    Lex.mQuoted q k (q :: w ++ q :: rest) = some ([⟨k, w⟩], rest) ∧ Lex.decodeQ q w = .ok s :=
+  ⟨Lemmas.spelling_lexes q hq k s w rest h, Lemmas.spelling_decodes q hq s w h⟩
+
+/-- **Dot shorthand**: `.name` is one name token for every name of the shorthand shape (a letter, `_` or a
+    non-ASCII character, then letters, digits, `_`, `-`, non-ASCII), keywords and `_`-names included. -/
+theorem dot_shorthand (cfg : Lex.Cfg) (c : Char) (cs rest : Str) (hc : Lex.keyStart c = true)
+    (hcs : cs.all Lex.keyCont = true) (hrest : ∀ d r, rest = d :: r → Lex.keyCont d = false) :
+    Lex.firstMatch (Lex.rules cfg) ('.' :: c :: cs ++ rest) = some ([⟨.prop, c :: cs⟩], rest) :=
+  Lemmas.dot_shorthand_lexes cfg c cs rest hc hcs hrest
+
 /-! ### Non-vacuity -/
+example : Lex.Spells '\'' ['a', '\'', 'é'] ['a', '\\', '\'', '\\', 'u', '0', '0', 'E', '9'] :=
+  .cons (.unescaped 'a' (by decide)) (.cons .quote (.cons (.hex 'é' '0' '0' 'E' '9' (by decide) (by decide)) .nil))
+
 example : Rfc.sliceIndices (some 5) (some (-6)) (some (-2)) 4 = [3, 1] := by
   simp [Rfc.sliceIndices, Rfc.bounds, Rfc.normalize, Int.min_def, Int.max_def]
   rw [Rfc.loopDown]; simp
